@@ -220,7 +220,7 @@ func solveAll(obls []*obligation, outDir string, timeoutS int, all bool) {
 	// result that is still undecided then is reported.
 	var again []*obligation
 	for _, o := range obls {
-		if (o.status == "timeout" || o.status == "unknown") && o.expect != "sat" && !o.quickOnly && o.solver != "vc-too-large" {
+		if (o.status == "timeout" || o.status == "unknown") && o.expect != "sat" && !o.quickOnly && !o.noRetry && o.solver != "vc-too-large" {
 			again = append(again, o)
 		}
 	}
